@@ -6,6 +6,11 @@ import RbV.Lemmas.MyersBlock
 import RbV.Lemmas.MyersLongAll
 import RbV.Lemmas.MyersLongBand
 import RbV.Thm.GenSrcHamming
+import RbV.Thm.GenSrcUkkonen
+import RbV.Thm.GenSrcMyersSimple
+import RbV.Thm.GenSrcMyersLong
+import RbV.Thm.GenSrcMyersLongStep
+import RbV.Lemmas.HitsClamp
 /-!
 # C09 — approximate matchers and distance functions equal the edit-distance definition
 
@@ -289,5 +294,234 @@ theorem hamming_source_counts (a b : List Nat) (h64 : a.length < 2 ^ 64) (hl : a
 
 example : RbV.Gen.SrcHamming.hamming [1, 2, 3] [1, 0, 0] = RbV.Rs.Res.ok 2 := by decide
 example : RbV.Gen.SrcHamming.hamming [1, 2, 3] [1, 0] = RbV.Rs.Res.panic := by decide
+
+/-! ### Ukkonen's cut-off DP, translated from the source text (genukk)
+
+`RbV/Gen/SrcUkkonen.lean` = `Ukkonen::find_all_end` + `ukkonen::Matches::next` of `pattern_matching/ukkonen.rs`, regenerated
+on every `./check C09`.  The two DP columns `D: [Vec<usize>; 2]` are a list `D` of two lists, the cost closure is the
+abstract function `cost` (a `u32`: `cost a b < 2^32`).  `findAllSrc cost D p t k` = `find_all_end(p, t, k)` on a matcher
+object whose buffers currently hold `D`, then `next` until `None` (`Rs.drain`). -/
+
+/-- **one call of `ukkonen::Matches::next`, as written, equals the mirror model**: on every state the model can be in
+(`WF`: two columns of `m + 1` cells bounded by `B`, `B + 2^32 ≤ 2^64`; `Dof i s` = the two buffers with the current
+column chosen by the parity of the text position `i`) the call does not panic and does not run out of loop fuel; it
+returns `None` exactly when the text is exhausted and the model's `run` has no further pair, and otherwise `Some(v)` with
+`v` the model's next pair, in a state that again represents the model's state (`StepSpec`). -/
+theorem ukkonen_next_source_eq_model (cost : Nat → Nat → Nat) (hcost : ∀ a b, cost a b < 2 ^ 32) (p : List Nat)
+    (k B : Nat) (hB : B + 2 ^ 32 ≤ 2 ^ 64) (hmB : p.length ≤ B) (rest : List Nat) (i : Nat) (s : RbV.Model.Ukkonen.St)
+    (wf : RbV.Thm.GenSrcUkkonen.WF p.length B s) (h64 : i + rest.length < 2 ^ 64) :
+    ∃ r' tx' o, RbV.Thm.GenSrcUkkonen.nextR cost p k (RbV.Thm.GenSrcUkkonen.Dof i s, s.lastk) (rest, i) = RbV.Rs.Res.ok (r', tx', o) ∧
+      RbV.Thm.GenSrcScanD.StepSpec (RbV.Model.Ukkonen.step cost p k) (RbV.Thm.GenSrcUkkonen.WF p.length B)
+        (fun i s => (RbV.Thm.GenSrcUkkonen.Dof i s, s.lastk)) rest i s r' tx' (o.map some) :=
+  RbV.Thm.GenSrcUkkonen.next_eq_model cost hcost p k B hB hmB rest i s wf h64
+
+/-- **`find_all_end` resets the matcher**: whatever the two buffers of the `Ukkonen` object held (any two lists — e.g. the
+columns a previous search left behind), the translated `find_all_end` returns the buffers `[k'+1; m+1]`, `0..=m` and
+`lastk = min(k', m)`: the initial state of the mirror model for the threshold `k'` it stores (`k` itself for the pinned
+text; `min k m` is accepted too, see `ukkonen_source_exact`). -/
+theorem ukkonen_find_all_end_source_resets (D : List (List Nat)) (hD : D.length = 2) (p t : List Nat) (k : Nat)
+    (hk : k + 1 < 2 ^ 64) (hm : p.length + 1 < 2 ^ 64) :
+    ∃ k', (k' = k ∨ k' = min k p.length) ∧
+      RbV.Gen.SrcUkkonen.findAllEnd D p t k = RbV.Rs.Res.ok
+        (RbV.Thm.GenSrcUkkonen.Dof 0 (RbV.Model.Ukkonen.init p.length k'),
+          (p, (t, 0), (RbV.Model.Ukkonen.init p.length k').lastk, p.length, k')) :=
+  RbV.Thm.GenSrcUkkonen.findAllEnd_init D hD p t k hk hm
+
+/-- **Ukkonen, as written in the source, is exact — also on a reused matcher object**: for every `u32`-valued cost
+function, every previous content `D` of the two column buffers, every pattern, text and threshold (`k`, `|p|` below
+`2^64 − 2^32`, `|t| < 2^64`), `find_all_end(p, t, k)` followed by `next` until `None` never panics and yields exactly the
+pairs `(end, d)`, `d ≤ k`, of the Sellers column (`hits_spec`).  No mirror model is left between the text and the
+specification (`ukkonen_eq` is the proof device). -/
+theorem ukkonen_source_exact (cost : Nat → Nat → Nat) (hcost : ∀ a b, cost a b < 2 ^ 32) (D : List (List Nat))
+    (hD : D.length = 2) (p t : List Nat) (k : Nat) (hk : k + 2 ^ 32 < 2 ^ 64) (hm : p.length + 2 ^ 32 < 2 ^ 64)
+    (h64 : t.length < 2 ^ 64) :
+    RbV.Thm.GenSrcUkkonen.findAllSrc cost D p t k = RbV.Rs.Res.ok (hits cost p t k) := by
+  obtain ⟨k', hk', h⟩ := RbV.Thm.GenSrcUkkonen.findAllSrc_eq_model cost hcost D hD p t k hk hm h64
+  rw [h, ukkonen_eq]
+  rcases hk' with rfl | rfl
+  · rfl
+  · rw [hits_clamp]
+
+/-- the result does not depend on what an earlier search left in the matcher (history clause of the property) -/
+theorem ukkonen_source_history_independent (cost : Nat → Nat → Nat) (hcost : ∀ a b, cost a b < 2 ^ 32)
+    (D D' : List (List Nat)) (hD : D.length = 2) (hD' : D'.length = 2) (p t : List Nat) (k : Nat)
+    (hk : k + 2 ^ 32 < 2 ^ 64) (hm : p.length + 2 ^ 32 < 2 ^ 64) (h64 : t.length < 2 ^ 64) :
+    RbV.Thm.GenSrcUkkonen.findAllSrc cost D p t k = RbV.Thm.GenSrcUkkonen.findAllSrc cost D' p t k := by
+  rw [ukkonen_source_exact cost hcost D hD p t k hk hm h64, ukkonen_source_exact cost hcost D' hD' p t k hk hm h64]
+
+-- non-vacuity: the translated code, run on a fresh object and on one whose buffers hold small stale values (the state
+-- seeded defects C09-1 / C09-6 fail on: pattern AACCAAA, k = 1, after a search in CAACC the text CACAAAA has no hit)
+example : RbV.Thm.GenSrcUkkonen.findAllSrc (unitW eqSym) [[], []] [1, 2, 1] [1, 2, 1, 3, 1, 1] 1
+    = RbV.Rs.Res.ok [(1, 1), (2, 0), (3, 1), (4, 1), (5, 1)] := by decide
+example : RbV.Thm.GenSrcUkkonen.findAllSrc (unitW eqSym) [[0, 1, 1, 1, 2, 3, 4, 5], [0, 0, 1, 2, 1, 2, 3, 4]]
+    [1, 1, 2, 2, 1, 1, 1] [2, 1, 2, 1, 1, 1, 1] 1 = RbV.Rs.Res.ok [] := by decide
+example : hits (unitW eqSym) [1, 1, 2, 2, 1, 1, 1] [2, 1, 2, 1, 1, 1, 1] 1 = [] := by decide
+
+/-! ### The single-word Myers matcher, translated from the source text (genukk)
+
+`RbV/Gen/SrcMyersState.lean`, `SrcMyersSimple.lean`, `SrcMyersMatches.lean` = `State::init`, `State::known_dist`,
+`Myers::_step`, `Myers::step`, `Myers::initial_state`, `Matches::new`, `Matches::next` of `pattern_matching/myers/{myers_impl,
+simple}.rs`, regenerated on every `./check C09`.  The generic word type `T: BitVec` is a `Nat` below `2^w` with the width `w` a
+parameter of every generated function, `T::DistType` a `Nat` below `2^wd`; a model state `s : St w` (`BitVec w`) is represented
+by `(s.pv.toNat, s.mv.toNat, s.dist)`.  Not translated: the constructor `new_ambig` (`HashMap`, closures) — that it stores
+`peq[a]` = the model's mask of symbol `a`, `bound = 1 << (m-1)` and `m` is read off by the mirror model and sampled. -/
+
+/-- **`Myers::_step`, as written, is the model's bit-vector step — for every word width** `w ≥ 2` (in particular `u8`, `u16`,
+`u32`, `u64`, `u128`) and `DistType` width `wd`: when `peq[a]` holds the word `eq` and `bound = 1 << (m-1)`, the translated
+function maps the representation of a state `s` to that of `MyersSimple.step m eq s` without panicking, on every state
+where the `dist` update (through `as i8`, sign extension to `usize`, `wrapping_add`, `from_usize(..).unwrap()`) neither
+goes below zero nor leaves `DistType` (side conditions `hlo`, `hwd`; they hold on every state a search reaches, see
+`myers_find_all_end_source_exact`). -/
+theorem myers_step_source_eq_model (w wd m : Nat) (hw : 1 < w) (peqT : List Nat) (a : Nat) (eq : BitVec w)
+    (s : RbV.Model.MyersSimple.St w) (hpeq : RbV.Rs.idx peqT a = RbV.Rs.Res.ok eq.toNat)
+    (hlo : ((s.pv &&& RbV.Model.MyersSimple.xhOf eq s.pv).getLsbD (m - 1)).toNat ≤
+      s.dist + ((s.mv ||| ~~~(RbV.Model.MyersSimple.xhOf eq s.pv ||| s.pv)).getLsbD (m - 1)).toNat)
+    (hhi : s.dist + 1 < 2 ^ 64) (hwd : (RbV.Model.MyersSimple.step m eq s).dist < 2 ^ wd) :
+    RbV.Gen.SrcMyersSimple.step_ (w := w) (wd := wd) (peq := peqT) (bound := 2 ^ (m - 1)) (pv := s.pv.toNat)
+        (mv := s.mv.toNat) (dist := s.dist) (a := a) =
+      RbV.Rs.Res.ok ((RbV.Model.MyersSimple.step m eq s).pv.toNat, (RbV.Model.MyersSimple.step m eq s).mv.toNat,
+        (RbV.Model.MyersSimple.step m eq s).dist) :=
+  RbV.Thm.GenSrcMyersSimple.step__eq_model w wd m hw peqT a eq s hpeq hlo hhi hwd
+
+/-- the four word types rust-bio instantiates (`impl_bitvec!(u8|u16|u32|u64, u8)`): one statement for all of them -/
+theorem myers_step_source_eq_model_std_widths (w : Nat) (hw : w = 8 ∨ w = 16 ∨ w = 32 ∨ w = 64) (m : Nat) (peqT : List Nat)
+    (a : Nat) (eq : BitVec w) (s : RbV.Model.MyersSimple.St w) (hpeq : RbV.Rs.idx peqT a = RbV.Rs.Res.ok eq.toNat)
+    (hlo : ((s.pv &&& RbV.Model.MyersSimple.xhOf eq s.pv).getLsbD (m - 1)).toNat ≤
+      s.dist + ((s.mv ||| ~~~(RbV.Model.MyersSimple.xhOf eq s.pv ||| s.pv)).getLsbD (m - 1)).toNat)
+    (hwd : (RbV.Model.MyersSimple.step m eq s).dist < 2 ^ 8) (hd : s.dist < 2 ^ 8) :
+    RbV.Gen.SrcMyersSimple.step_ (w := w) (wd := 8) (peq := peqT) (bound := 2 ^ (m - 1)) (pv := s.pv.toNat)
+        (mv := s.mv.toNat) (dist := s.dist) (a := a) =
+      RbV.Rs.Res.ok ((RbV.Model.MyersSimple.step m eq s).pv.toNat, (RbV.Model.MyersSimple.step m eq s).mv.toNat,
+        (RbV.Model.MyersSimple.step m eq s).dist) :=
+  myers_step_source_eq_model w 8 m (by omega) peqT a eq s hpeq hlo (by omega) hwd
+
+/-- **one call of `myers::Matches::next`, as written, equals the mirror model**: on every state a search can reach
+(`InvS`: the state after some text prefix) the call does not panic; `None` exactly when the text is exhausted and the
+model's `run` has no further pair, otherwise `Some((i, d))` = the model's next pair (`StepSpec`). -/
+theorem myers_next_source_eq_model (w wd : Nat) (eqv : Nat → Nat → Bool) (p : List Nat) (k : Nat) (hw1 : 1 < w)
+    (hm1 : 1 ≤ p.length) (hw : p.length ≤ w) (hwd : p.length < 2 ^ wd) (h64p : p.length + 1 < 2 ^ 64) (rest : List Nat)
+    (i : Nat) (s : RbV.Model.MyersSimple.St w) (inv : RbV.Thm.GenSrcMyersMatches.InvS w eqv p s)
+    (hb : ∀ c ∈ rest, c < 256) (h64 : i + rest.length < 2 ^ 64) :
+    ∃ r' tx' o, RbV.Thm.GenSrcMyersMatches.nextR w wd eqv p k (RbV.Thm.GenSrcMyersSimple.rep s) (rest, i) = RbV.Rs.Res.ok (r', tx', o) ∧
+      RbV.Thm.GenSrcScanD.StepSpec (RbV.Thm.GenSrcMyersMatches.stepO w eqv p k) (RbV.Thm.GenSrcMyersMatches.InvS w eqv p)
+        (fun _ s => RbV.Thm.GenSrcMyersSimple.rep s) rest i s r' tx' (o.map some) :=
+  RbV.Thm.GenSrcMyersMatches.next_eq_model w wd eqv p k hw1 hm1 hw hwd h64p rest i s inv hb h64
+
+/-- **the single-word Myers search, as written in the source, is exact**: `Matches::new` (what `find_all_end` calls) then
+`next` until `None`, run on the tables the constructor stores for the pattern (`peqTab`, `bound = 1 << (m-1)`, `m`), never
+panics and yields exactly the pairs `(end, d)`, `d ≤ k`, of the Sellers column — for every word width `w ≥ 2`, `DistType`
+width with `|p| < 2^wd`, pattern of `1..w` symbols, symbol equivalence (ambiguity map, wildcards), byte text and `k`. -/
+theorem myers_find_all_end_source_exact (w wd : Nat) (eqv : Nat → Nat → Bool) (p t : List Nat) (k : Nat) (hw1 : 1 < w)
+    (hm1 : 1 ≤ p.length) (hw : p.length ≤ w) (hwd : p.length < 2 ^ wd) (h64p : p.length + 1 < 2 ^ 64)
+    (hb : ∀ c ∈ t, c < 256) (h64 : t.length < 2 ^ 64) :
+    RbV.Thm.GenSrcMyersMatches.findAllSrc w wd (RbV.Thm.GenSrcMyersSimple.peqTab w eqv p) (2 ^ (p.length - 1)) p.length t k
+      = RbV.Rs.Res.ok (hits (unitW eqv) p t k) := by
+  rw [RbV.Thm.GenSrcMyersMatches.findAllSrc_eq_model w wd eqv p t k hw1 hm1 hw hwd h64p hb h64, myers_simple_eq w eqv p t k hm1 hw]
+
+-- non-vacuity: the translated `_step` on a `u8` state (pattern of 3 symbols, bound = 0b100), and a whole search
+example : RbV.Gen.SrcMyersSimple.step_ (w := 8) (wd := 8) (peq := [0, 0b101, 0b010, 0]) (bound := 0b100) (pv := 255) (mv := 0)
+    (dist := 3) (a := 1) = RbV.Rs.Res.ok (254, 0, 2) := by decide
+example : RbV.Gen.SrcMyersSimple.step_ (w := 8) (wd := 8) (peq := [0, 0b101, 0b010, 0]) (bound := 0b100) (pv := 255) (mv := 0)
+    (dist := 3) (a := 3) = RbV.Rs.Res.ok (255, 0, 3) := by decide
+-- outside the side condition `hlo` (a state no search reaches: `dist = 0` with a decreasing last row) the Rust code panics
+example : RbV.Gen.SrcMyersSimple.step_ (w := 8) (wd := 8) (peq := [0, 0b101, 0b010, 0]) (bound := 0b100) (pv := 255) (mv := 0)
+    (dist := 0) (a := 1) = RbV.Rs.Res.panic := by decide
+example : RbV.Thm.GenSrcMyersMatches.findAllSrc 8 8 [0, 0b101, 0b010, 0] 0b100 3 [1, 2, 1, 3, 1, 1] 1
+    = RbV.Rs.Res.ok [(1, 1), (2, 0), (3, 1), (4, 1), (5, 1)] := by decide
+example : RbV.Thm.GenSrcMyersMatches.findAllSrc 16 8 [0, 0b101, 0b010, 0] 0b100 3 [1, 2, 1, 3, 1, 1] 1
+    = RbV.Rs.Res.ok (hits (unitW eqSym) [1, 2, 1] [1, 2, 1, 3, 1, 1] 1) := by decide
+
+/-! ### The block step of the block-based Myers matcher, translated from the source text (genukk)
+
+`RbV/Gen/SrcMyersLong.lean` = `advance_block`, `States::add_state`, `States::step` of `pattern_matching/myers/long.rs`
+(`States::new`, `known_dist`, the constructor `new_ambig` and the glue `Myers::step` / `initial_state` are not translated: they
+stay tied by the mirror model `Model/MyersLong.lean`, `myers_long_eq`, and the correspondence run). -/
+
+/-- **`advance_block`, as written, is the model's block step — for every word width** `w ≥ 2`: when `p.peq[a]` holds the
+word `eq` and `p.bound = 1 << bnd`, the translated function maps the representation `(pv, mv, dist)` of a block `s` and the
+`i8` pattern of the incoming horizontal difference `hin ∈ {−1, 0, 1}` to the representation of
+`MyersLong.advanceBlock bnd eq hin s` and the `i8` pattern of the outgoing difference, without panicking — on every block
+where `dist.wrapping_add(hout as usize)` does not wrap (`hlo`; by `myers_block_step` this holds whenever the block
+encodes a column with non-negative entries). -/
+theorem myers_long_advance_block_source_eq_model (w bnd : Nat) (hw : 1 < w) (peqT : List Nat) (a : Nat) (eq : BitVec w)
+    (s : RbV.Model.MyersSimple.St w) (hin : Int) (hh : -1 ≤ hin ∧ hin ≤ 1)
+    (hpeq : RbV.Rs.idx peqT a = RbV.Rs.Res.ok eq.toNat)
+    (hlo : ((s.pv &&& RbV.Model.MyersSimple.xhOf (if hin < 0 then eq ||| 1#w else eq) s.pv).getLsbD bnd).toNat ≤
+      s.dist + ((s.mv ||| ~~~(RbV.Model.MyersSimple.xhOf (if hin < 0 then eq ||| 1#w else eq) s.pv ||| s.pv)).getLsbD bnd).toNat)
+    (hhi : s.dist + 1 < 2 ^ 64) :
+    RbV.Gen.SrcMyersLong.advanceBlock (w := w) (pv := s.pv.toNat) (mv := s.mv.toNat) (dist := s.dist) (peq := peqT)
+        (bound := 2 ^ bnd) (a := a) (hin := RbV.Rs.ofInt 8 hin) =
+      RbV.Rs.Res.ok ((RbV.Model.MyersLong.advanceBlock bnd eq hin s).1.pv.toNat,
+        (RbV.Model.MyersLong.advanceBlock bnd eq hin s).1.mv.toNat, (RbV.Model.MyersLong.advanceBlock bnd eq hin s).1.dist,
+        RbV.Rs.ofInt 8 (RbV.Model.MyersLong.advanceBlock bnd eq hin s).2) :=
+  RbV.Thm.GenSrcMyersLong.advanceBlock_eq_model w bnd hw peqT a eq s hin hh hpeq hlo hhi
+
+-- non-vacuity: a `u8` block of 3 rows (bound = 0b100), incoming difference −1 (255) resp. +1
+example : RbV.Gen.SrcMyersLong.advanceBlock (w := 8) (pv := 255) (mv := 0) (dist := 3) (peq := [0, 0b101, 0b010, 0])
+    (bound := 0b100) (a := 2) (hin := 255) = RbV.Rs.Res.ok (255, 0, 2, 255) := by decide
+example : RbV.Gen.SrcMyersLong.advanceBlock (w := 8) (pv := 255) (mv := 0) (dist := 3) (peq := [0, 0b101, 0b010, 0])
+    (bound := 0b100) (a := 3) (hin := 1) = RbV.Rs.Res.ok (254, 0, 3, 0) := by decide
+
+/-- **`States::add_state(offset)`, as written**: appends `State::init(prev_dist + delta + offset)` to the active blocks, where
+`prev_dist` is the distance of the last active block (0 for none) and `delta` the number of pattern rows of the new block
+(`last_m` for a partial last block, else the word size); `offset ∈ {−1, 0, 1}` as an `i8` pattern; no wrap-around when the
+sum is a non-negative `usize`. -/
+theorem myers_long_add_state_source_eq_model (w : Nat) (L : List (RbV.Model.MyersSimple.St w)) (mb lm : Nat) (o : Int)
+    (ho : -1 ≤ o ∧ o ≤ 1)
+    (hnn : 0 ≤ (RbV.Thm.GenSrcMyersLongStep.lastDist L : Int) + (if L.length = mb ∧ lm > 0 then lm else w : Nat) + o)
+    (hlt : RbV.Thm.GenSrcMyersLongStep.lastDist L + (if L.length = mb ∧ lm > 0 then lm else w) + 1 < 2 ^ 64) :
+    RbV.Gen.SrcMyersLong.addState (w := w) (states := RbV.Thm.GenSrcMyersLongStep.repS L) (max_block := mb) (last_m := lm)
+        (offset := RbV.Rs.ofInt 8 o) =
+      RbV.Rs.Res.ok (RbV.Thm.GenSrcMyersLongStep.repS (L ++ [⟨BitVec.allOnes w, 0#w,
+        ((RbV.Thm.GenSrcMyersLongStep.lastDist L : Int) + (if L.length = mb ∧ lm > 0 then lm else w : Nat) + o).toNat⟩])) :=
+  RbV.Thm.GenSrcMyersLongStep.addState_eq_model w L mb lm o ho hnn hlt
+
+/-- **`States::step`, as written, is the model's `stepStates` — for every word width**: the carry chain
+`for (state, block_peq) in self.states.iter_mut().zip(peq) { carry = advance_block(..) }` (= `advanceAll`), the lazy
+activation test `(last_dist as isize - carry as isize) as usize <= max_dist && last_block < self.max_block &&
+(peq[last_block + 1].peq[a] & 1 == 1 || carry < 0)` with `add_state(-carry)` + `advance_block` on the new block, and
+otherwise the deactivation loop `while last_block > 0 && states[last_block].dist >= max_dist.saturating_add(w)` +
+`truncate` (= `cutRev`).  `repS` / `peqL` are the active blocks and the per-block tables as the code holds them.
+The hypotheses are side conditions, not restrictions of the algorithm: no `dist` update wraps (`ChainOk`, `hfresh`), the
+distances stay below `2^63` so that the `isize` round trip of the activation test is exact (`hd`), the value
+`last_dist − carry` of the previous column is not negative (`hnn`), and the blocks have the lengths `States::new` assumes
+(`hblk`, `hlm`).  They are **not** yet derived from the `Band` invariant behind `myers_long_eq` (that every state a
+search reaches satisfies them is argued in docs/notes/C09.md, and sampled by the correspondence run); hence there is no
+end-to-end `…_source_exact` statement for the block-based matcher. -/
+theorem myers_long_step_source_eq_model (w : Nat) (eqv : Nat → Nat → Bool) (blks : List (List Nat)) (k a lm : Nat)
+    (sts : List (RbV.Model.MyersSimple.St w)) (hw : 1 < w) (hwlt : w < 2 ^ 62) (hlm : lm ≤ w) (ha : a < 256) (hne : sts ≠ [])
+    (hlen : sts.length ≤ blks.length) (hbl : blks.length < 2 ^ 63)
+    (hblk : ∀ i blk, blks[i]? = some blk → blk.length = (if i = blks.length - 1 ∧ lm > 0 then lm else w))
+    (hchain : RbV.Thm.GenSrcMyersLongStep.ChainOk eqv a blks sts 0)
+    (hd : ∀ s ∈ (RbV.Model.MyersLong.advanceAll eqv a blks sts 0).1, s.dist + 1 < 2 ^ 63)
+    (hnn : 0 ≤ (RbV.Thm.GenSrcMyersLongStep.lastDist (RbV.Model.MyersLong.advanceAll eqv a blks sts 0).1 : Int) -
+      (RbV.Model.MyersLong.advanceAll eqv a blks sts 0).2)
+    (hfresh : ∀ blk, blks[sts.length]? = some blk →
+      RbV.Thm.GenSrcMyersLongStep.BlockOk eqv a blk
+        (RbV.Thm.GenSrcMyersLongStep.freshBlock w (RbV.Model.MyersLong.advanceAll eqv a blks sts 0).1 blk.length
+          (RbV.Model.MyersLong.advanceAll eqv a blks sts 0).2)
+        (RbV.Model.MyersLong.advanceAll eqv a blks sts 0).2) :
+    RbV.Gen.SrcMyersLong.step (w := w) (states := RbV.Thm.GenSrcMyersLongStep.repS sts) (max_block := blks.length - 1)
+        (last_m := lm) (a := a) (peq := RbV.Thm.GenSrcMyersLongStep.peqL w eqv blks) (max_dist := k) =
+      RbV.Rs.Res.ok (RbV.Thm.GenSrcMyersLongStep.repS (RbV.Model.MyersLong.stepStates eqv blks k a sts)) :=
+  RbV.Thm.GenSrcMyersLongStep.step_eq_model w eqv blks k a lm sts hw hwlt hlm ha hne hlen hbl hblk hchain hd hnn hfresh
+
+-- non-vacuity: pattern 1 2 3 4 5 6 in blocks of 4 bits, k = 1.  After the text 1 2 3 one block is active
+-- (`pv = 9, mv = 4, dist = 1`); the symbol 4 switches the second block on (all hypotheses checked on this input):
+example : RbV.Gen.SrcMyersLong.step (w := 4) (states := [(9, 4, 1)]) (max_block := 1) (last_m := 2) (a := 4)
+    (peq := RbV.Thm.GenSrcMyersLongStep.peqL 4 eqSym [[1, 2, 3, 4], [5, 6]]) (max_dist := 1) =
+    RbV.Rs.Res.ok [(3, 12, 0), (15, 0, 2)] := by
+  have h := myers_long_step_source_eq_model 4 eqSym [[1, 2, 3, 4], [5, 6]] 1 4 2 [⟨9#4, 4#4, 1⟩] (by decide) (by decide)
+    (by decide) (by decide) (by decide) (by decide) (by decide)
+    (by intro i blk h; rcases i with _ | _ | i <;> simp at h <;> subst h <;> rfl)
+    (by simp only [RbV.Thm.GenSrcMyersLongStep.ChainOk, RbV.Thm.GenSrcMyersLongStep.BlockOk]; decide)
+    (by decide) (by decide)
+    (by intro blk h; simp at h; subst h; simp only [RbV.Thm.GenSrcMyersLongStep.BlockOk]; decide)
+  rw [show RbV.Thm.GenSrcMyersLongStep.repS [(⟨9#4, 4#4, 1⟩ : RbV.Model.MyersSimple.St 4)] = [(9, 4, 1)] from by decide] at h
+  exact h.trans (by decide)
+-- … and the deactivation: two active blocks, the last row reaches k + w = 5, the second block is switched off
+example : RbV.Gen.SrcMyersLong.step (w := 4) (states := [(15, 0, 4), (0, 0, 4)]) (max_block := 1) (last_m := 2) (a := 9)
+    (peq := RbV.Thm.GenSrcMyersLongStep.peqL 4 eqSym [[1, 2, 3, 4], [5, 6]]) (max_dist := 1) =
+    RbV.Rs.Res.ok [(15, 0, 4)] := by decide
 
 end RbV.Thm.C09
